@@ -1,6 +1,6 @@
 """Shared by C06 and C15: probe schemas around a generated content expression, and the
 product exploration (library match state x reference derivative)."""
-from ..refschema import EMPTY, RefSchema, SchemaRejected, deriv, first, nullable
+from ..refschema import EMPTY, RefSchema, SchemaRejected, TooComplex, deriv, first, nullable
 
 BLOCK_NAMES = ["a", "b", "c", "g", "r"]
 INLINE_NAMES = ["text", "i", "j", "inline"]
@@ -34,6 +34,8 @@ def build(spec):
         rs = RefSchema(spec)
     except SchemaRejected as e:
         rs = e
+    except TooComplex as e:
+        return None, e
     try:
         s = Schema(spec)
     except BaseException as e:  # noqa: BLE001 - rejection by any exception is tallied
